@@ -26,8 +26,15 @@ TailDecl ==
            s \in {MCall(A, "act", <<IntL(1)>>), BrkS(0)}, d \in {NoneS(0), Def(0, <<MCall(A, "act", <<IntL(9)>>)>>), Def(2, <<BrkS(0)>>)}}
   \cup {Block(<<If(c, Block(<<If(Rd(B, "flag"), s, NoneS(0))>>), NoneS(0)), LetC("r", A, "twice", <<PN>>)>>) : c \in Conds, s \in {MCall(A, "poke", <<>>), RetVS(0)}}
   \cup {Block(<<Let("q", Tern(c, IntL(1), IntL(2))), LetC("r", A, "twice", <<Lv("q")>>)>>) : c \in Conds}
+\* conditions whose short-circuit operators have a RIGHT operand that itself spans several blocks
+NestC == {And(Rd(A, "flag"), Or(Rd(A, "flagB"), Rd(B, "flag"))), Or(Rd(A, "flag"), And(Rd(A, "flagB"), Rd(B, "flag"))),
+          And(Rd(A, "flag"), Tern(Rd(A, "flagB"), Rd(B, "flag"), Bool(TRUE))), Or(Un("!", Rd(A, "flag")), Or(Rd(A, "flagB"), And(Rd(B, "flag"), Bin(">", PN, IntL(0))))),
+          And(And(Rd(A, "flag"), Rd(A, "flagB")), Rd(B, "flag"))}
+NestedCond == {Block(<<If(c, MCall(A, "act", <<IntL(1)>>), MCall(A, "act", <<IntL(2)>>)), MCall(B, "poke", <<>>)>>) : c \in NestC}
+           \cup {Block(<<Let("ok", c), If(Lv("ok"), MCall(A, "act", <<IntL(3)>>), NoneS(0))>>) : c \in NestC}
+           \cup {Block(<<WProp(A, "flag", c)>>) : c \in {Or(Bin(">", PN, IntL(0)), And(Rd(A, "flagB"), Rd(B, "flag"))), And(Bin(">", PN, IntL(0)), Or(Rd(A, "flagB"), Rd(B, "flag")))}}
 Params2 == <<[n |-> "n", ty |-> "int"], [n |-> "s", ty |-> "QString"]>>
-HandlerProgs == {[sig |-> "fired", params |-> Params2, form |-> f, body |-> b] : b \in Sample(HBodies) \cup TailDecl, f \in {"function"}}
+HandlerProgs == {[sig |-> "fired", params |-> Params2, form |-> f, body |-> b] : b \in Sample(HBodies) \cup TailDecl \cup NestedCond, f \in {"function"}}
    \cup {[sig |-> "fired", params |-> Params2, form |-> f, body |-> b] : b \in Sample({Block(<<s>>) : s \in HSimple}), f \in {"arrow", "function"}}
 
 
